@@ -30,7 +30,15 @@ def settle(events):
     return list(events) + ["R"] + ["D"] * min(nm + ns + 3, 24) + ["T,%d" % i for i in range(min(ns, 16))]
 
 
-def gen_random(rnd, count, maxlen):
+def serial_after(base, k):
+    """the serial a connection whose counter stands at `base` hands out after k more draws"""
+    return 1 + (base - 1 + k) % (2 ** 32 - 1)
+
+
+HIGH_BASES = (2 ** 31 - 1, 2 ** 32 - 2)     # first serials 2^31-1, 2^31, ... / 2^32-2, 2^32-1, 1, 2, ...
+
+
+def gen_random(rnd, count, maxlen, base=1):
     out = []
     for _ in range(count):
         n = 0
@@ -51,7 +59,8 @@ def gen_random(rnd, count, maxlen):
                 tag += 1
                 k = rnd.choice("rrrrees")
                 if rnd.random() < 0.12:
-                    target = "#%d" % rnd.choice((0 if k == "s" else 1, 1, 2, draws + 1, draws + 2, 999999, 4294967295))
+                    target = "#%d" % rnd.choice((0 if k == "s" else 1, 1, 2, serial_after(base, draws), serial_after(base, draws + 1), 999999, 4294967295,
+                                                 2147483648, serial_after(base, 0)))
                 else:
                     target = "c%d" % rnd.randrange(n)
                 ev.append("M,%s,%s,%d" % (k, target, tag))
@@ -189,6 +198,7 @@ def oracle(events, line):
     """Evaluate the property text on one observed trace.  Returns a list of (class, text); class is
     'strand' (closed connection, call never completed), 'cancel-block' (cancelled call completed by a block),
     or 'violation'."""
+    events = [e for e in events if not (e.startswith("base=") or e.startswith("realbase="))]
     segs = parse_trace(line)
     if segs is None or len(segs) != len(events):
         return [("violation", "unparseable trace")]
@@ -364,6 +374,17 @@ def run(ctx):
     cases += [("blockwhile", e) for e in gen_bw(rnd, 250 if tier == "quick" else 4000)]
     cases += [("exhaustive", e) for e in gen_exhaustive(4 if tier == "quick" else 5)]
     cases += [("random", e) for e in gen_random(rnd, 12000 if tier == "quick" else 300000, 22)]
+    # the same families on a connection whose counter stands beyond 2^31 / just before the wrap (harness-kept counter, see pending_h.c)
+    fam = [c["events"].split() for p in sorted(glob.glob(os.path.join(vlib.VERIF, "corpus", "C17", "*.json"))) for c in json.load(open(p))]
+    fam += gen_boundary() + gen_bw(rnd, 0) + gen_exhaustive(3 if tier == "quick" else 4)
+    for b in HIGH_BASES:
+        cases += [("base%d" % b, ["base=%d" % b] + e) for e in fam]
+        cases += [("base%d" % b, ["base=%d" % b] + e) for e in gen_random(rnd, 1000 if tier == "quick" else 40000, 22, base=b)]
+    # ... and with the library's own counter really advanced there (seconds per case: a handful only)
+    real = [["S,8,1", "S,8,1", "S,8,0", "M,r,c2,5", "R", "D", "F,1", "D", "M,e,c0,6", "W", "D", "D"],
+            ["S,inf,1", "P", "S,8,1", "M,r,c1,1", "M,r,c0,2", "M,s,c0,3", "R", "D", "D", "D", "C,1", "B,0"]]
+    for b in ((2 ** 31 - 1,) if tier == "quick" else HIGH_BASES):
+        cases += [("realbase%d" % b, ["realbase=%d" % b] + e) for e in real]
     if ctx.get("replay"):
         r = json.load(open(ctx["replay"]))
         cases = [("replay", r["replay"]["events"].split())]
@@ -390,7 +411,23 @@ def run(ctx):
         else:
             normal.append(k)
 
-    iout, icr = vlib.run_lines(exe, [lines[k] for k in normal])
+    slow = [k for k in normal if lines[k].startswith("run realbase=")]
+    fast = [k for k in normal if not lines[k].startswith("run realbase=")]
+    slow_res = {}
+    import threading
+
+    def run_slow():
+        if slow:
+            slow_res["r"] = vlib.run_lines(exe, [lines[k] for k in slow], shards=len(slow))
+    th = threading.Thread(target=run_slow)
+    th.start()
+    fout, icr = vlib.run_lines(exe, [lines[k] for k in fast])
+    th.join()
+    res = dict(zip(fast, fout))
+    if slow:
+        res.update(zip(slow, slow_res["r"][0]))
+        icr = icr + slow_res["r"][1]
+    iout = [res[k] for k in normal]
     crashed = {line: err for line, err in icr}
     dist = {}
     nontrivial = set()
@@ -498,7 +535,10 @@ def run(ctx):
         "that each modelled event is atomic with respect to the connection lock (the lock discipline itself is not verified)",
         "timeouts are fired by the harness through dbus_timeout_handle; a blocking wait uses the real clock (8-25 ms timeouts), differences on schedules with "
         "a block are re-run twice before they count",
-        "serial wrap-around is proved on the model (next_serial) and not driven through the implementation (2^32 sends)",
+        "counter values beyond 2^31 and across the wrap: most schedules use base=<b>, where the harness keeps the counter (same rule) and presets every "
+        "outgoing message's serial with dbus_message_set_serial, so the library's own counter is not what hands the serials out there; a handful of "
+        "realbase=<b> schedules advance the real counter with _dbus_connection_get_next_client_serial (2^31 calls) and must give the same traces; "
+        "the counter function itself is tied by the generated table (PendingTie.v)",
         "BW schedules (block while the peer keeps writing) use a helper thread in the harness that writes pre-marshalled bytes every 15 ms and makes no "
         "libdbus call; only calls without timeout or with a 2 s timeout are waited for this way",
         "schedules that would block for ever (block on a call without timeout and without a reply) are not run",
